@@ -178,7 +178,13 @@ class Analysis:
             self.writes = []
             for u in self.units:
                 before = (set(self.summaries[id(u.node)].writes), self.summaries[id(u.node)].returns)
-                FuncInterp(self, u).run()
+                guards = repeated_guards(u.node)[:3]
+                if guards:
+                    import itertools
+                    for combo in itertools.product((True, False), repeat=len(guards)):
+                        FuncInterp(self, u, dict(zip(guards, combo))).run()
+                else:
+                    FuncInterp(self, u).run()
                 after = (self.summaries[id(u.node)].writes, self.summaries[id(u.node)].returns)
                 if before[0] != after[0] or before[1] != after[1]:
                     changed = True
@@ -189,10 +195,36 @@ class Analysis:
         return self.summaries.get(id(fn.node), Summary())
 
 
+def _guard_name(test: ast.AST) -> Optional[Tuple[str, bool]]:
+    pol = True
+    while isinstance(test, ast.UnaryOp) and isinstance(test.op, ast.Not):
+        pol = not pol
+        test = test.operand
+    if isinstance(test, ast.Name):
+        return test.id, pol
+    return None
+
+
+def repeated_guards(fn_node: ast.AST) -> List[str]:
+    """Names used as the whole test of >= 2 `if` statements and bound exactly once (same-guard correlation)."""
+    counts: Dict[str, int] = {}
+    for n in ast.walk(fn_node):
+        if isinstance(n, ast.If):
+            g = _guard_name(n.test)
+            if g:
+                counts[g[0]] = counts.get(g[0], 0) + 1
+    binds: Dict[str, int] = {}
+    for n in ast.walk(fn_node):
+        if isinstance(n, ast.Name) and isinstance(n.ctx, ast.Store):
+            binds[n.id] = binds.get(n.id, 0) + 1
+    return sorted(k for k, v in counts.items() if v >= 2 and binds.get(k, 0) == 1)
+
+
 class FuncInterp:
-    def __init__(self, an: Analysis, fn: FuncInfo):
+    def __init__(self, an: Analysis, fn: FuncInfo, assume: Optional[Dict[str, bool]] = None):
         self.an = an
         self.fn = fn
+        self.assume = assume or {}
         self.env: Dict[str, Val] = {}
         self.sum = an.summaries[id(fn.node)]
         a = fn.node.args
@@ -252,12 +284,21 @@ class FuncInterp:
                 self.sum.returns = self.sum.returns.join(v)
         elif isinstance(s, ast.If):
             self.val(s.test)
+            g = _guard_name(s.test)
+            if g is not None and g[0] in self.assume:
+                self.block(s.body if self.assume[g[0]] == g[1] else s.orelse)
+                return
             saved = dict(self.env)
+            saved_np = (set(self.np_aliases_cnp), set(self.np_aliases_host))
             self.block(s.body)
             e1 = self.env
+            np1 = (set(self.np_aliases_cnp), set(self.np_aliases_host))
             self.env = dict(saved)
+            self.np_aliases_cnp, self.np_aliases_host = set(saved_np[0]), set(saved_np[1])
             self.block(s.orelse)
             self.env = self.merge_env(e1, self.env)
+            self.np_aliases_cnp |= np1[0]
+            self.np_aliases_host |= np1[1]
         elif isinstance(s, (ast.For, ast.AsyncFor)):
             it = self.val(s.iter)
             elemv = Val(it.own | it.elem, it.elem)
@@ -299,10 +340,11 @@ class FuncInterp:
         if isinstance(target, ast.Name):
             self.env[target.id] = v
             # np aliases
-            if isinstance(src, ast.Attribute) and src.attr == "np" and is_connector_expr(src.value):
+            if isinstance(src, ast.Attribute) and src.attr in ("np", "_np", "forward_pass_np") and (
+                    is_connector_expr(src.value) or src.attr == "_np"):
                 self.np_aliases_cnp.add(target.id)
                 self.np_aliases_host.discard(target.id)
-            elif isinstance(src, ast.Attribute) and src.attr in ("fallback_np",) :
+            elif isinstance(src, ast.Attribute) and src.attr in ("fallback_np",):
                 self.np_aliases_host.add(target.id)
                 self.np_aliases_cnp.discard(target.id)
         elif isinstance(target, (ast.Tuple, ast.List)):
@@ -405,10 +447,13 @@ class FuncInterp:
                 out = out.join(self.val(x))
             return out
         if isinstance(e, (ast.BinOp, ast.UnaryOp, ast.Compare)):
+            cnp = frozenset()
             for c in ast.iter_child_nodes(e):
                 if isinstance(c, ast.expr):
-                    self.val(c)
-            return EMPTY  # arithmetic produces a fresh value
+                    v = self.val(c)
+                    cnp |= frozenset(o for o in v.own if o[0] == "cnp")
+            # arithmetic produces a fresh value; with a connector-array operand it is again a connector array
+            return Val(cnp) if (cnp and self.an.opt["track_cnp"] and not isinstance(e, ast.Compare)) else EMPTY
         if isinstance(e, ast.Lambda):
             return EMPTY
         if isinstance(e, ast.Starred):
@@ -527,8 +572,9 @@ class FuncInterp:
                 return EMPTY
             # connector.assign(a, index, value)
             if f.attr == "assign" and is_connector_expr(recv) and argv:
-                if self.an.opt["connector_assign_writes"] and argv[0].own:
-                    self.write(c, "connector.assign (writes its first argument under the NumPy connector)", norm(c.args[0]), argv[0].own)
+                if self.an.opt["connector_assign_writes"] and frozenset(o for o in argv[0].own if o[0] != "cnp"):
+                    self.write(c, "connector.assign (writes its first argument under the NumPy connector)", norm(c.args[0]),
+                               frozenset(o for o in argv[0].own if o[0] != "cnp"))
                 return argv[0]
             if f.attr in VIEW_METHODS and not self._is_np_module(f):
                 return Val(rv.own | (rv.elem if f.attr in ("values", "items", "get") else frozenset()), rv.elem)
@@ -539,6 +585,11 @@ class FuncInterp:
                     return Val(frozenset(), rv.elem if self._is_container_expr(recv) else frozenset())
                 return EMPTY
             if self._is_np_module(f):
+                if self.an.opt["track_cnp"] and self._is_connector_np(f) and last not in ("isscalar", "shape", "size", "ndim", "allclose", "isclose", "any", "all", "sum", "prod", "max", "min", "trace", "real_if_close"):
+                    inherited = frozenset()
+                    if last in VIEW_FUNCS and argv:
+                        inherited = argv[0].own
+                    return Val(inherited | frozenset({("cnp", f"{norm(f)}(...) at line {c.lineno}")}))
                 if last in VIEW_FUNCS and argv:
                     if last in ("zip", "enumerate"):
                         el = frozenset()
@@ -586,18 +637,22 @@ class FuncInterp:
                 elif t.name == "__init__":
                     off = 1
             actual: Dict[int, Val] = {}
+            actual_expr: Dict[int, ast.AST] = {}
             if recv_val is not None:
                 actual[0] = recv_val
+                actual_expr[0] = f.value  # type: ignore[union-attr]
             for i, a in enumerate(argv):
                 actual[i + off] = a
-            for k, v in kwv.items():
-                if k in tparams:
-                    actual[tparams.index(k)] = v
+                actual_expr[i + off] = c.args[i]
+            for kw in c.keywords:
+                if kw.arg in tparams:
+                    actual[tparams.index(kw.arg)] = kwv[kw.arg]
+                    actual_expr[tparams.index(kw.arg)] = kw.value
             for wi in s.writes:
                 av = actual.get(wi)
                 if av is not None and av.own:
                     self.write(c, f"call:{t.qualname} writes its parameter `{tparams[wi] if wi < len(tparams) else wi}` "
-                                  f"({s.write_how.get(wi, '')})", norm(c)[:80], av.own)
+                                  f"({s.write_how.get(wi, '')})", norm(actual_expr[wi])[:80] if wi in actual_expr else norm(c)[:80], av.own)
             out = out.join(self._subst_return(s, actual))
         return out
 
@@ -620,6 +675,19 @@ class FuncInterp:
 
     def _is_container_expr(self, e: ast.AST) -> bool:
         return isinstance(e, ast.Name) and self._is_container(e.id)
+
+    def _is_connector_np(self, f: ast.AST) -> bool:
+        """connector.np.xxx / <alias of connector.np>.xxx / state._np.xxx: an array factory of the *connector's* backend."""
+        if not isinstance(f, ast.Attribute):
+            return False
+        v = f.value
+        if isinstance(v, ast.Name):
+            return v.id in self.np_aliases_cnp and v.id not in self.np_aliases_host
+        if isinstance(v, ast.Attribute) and v.attr in ("np", "forward_pass_np") and is_connector_expr(v.value):
+            return True
+        if isinstance(v, ast.Attribute) and v.attr == "_np":
+            return True
+        return False
 
     def _is_np_module(self, f: ast.AST) -> bool:
         """np.xxx / fallback_np.xxx / connector.np.xxx / scipy.linalg.xxx (module-level function, not a method on data)."""
